@@ -477,6 +477,14 @@ static int parse_align(AsmContext *asm_context, int num)
     return -1;
   }
 
+  // The mask below only works for powers of two: 0 or a negative value
+  // would spin through the whole address space, 3 would not align to 3.
+  if (num < 1 || (num & (num - 1)) != 0)
+  {
+    print_error(asm_context, "align constant is not a power of two");
+    return -1;
+  }
+
   mask = num - 1;
 
   while ((asm_context->address & mask) != 0)
